@@ -56,7 +56,10 @@ Fixpoint forced_S (fuel : nat) (this : path) (incs : list path) (p : plat) : res
   | n :: r =>
       match search fs (dirs p) (n, this, false) with
       | None => forced_S fuel this r p
-      | Some f => match run_file_S fuel f p with Ok p2 => forced_S fuel this r p2 | Err e => Err e end
+      | Some f =>
+          (* a header that declared #pragma once earlier in this translation unit is not read again *)
+          if mem_path f (once p) then forced_S fuel this r p
+          else match run_file_S fuel f p with Ok p2 => forced_S fuel this r p2 | Err e => Err e end
       end
   end.
 
